@@ -7,6 +7,8 @@ CONSTANTS
   SubscribeLate = FALSE
   MaxAbandon = 1
   SilentAbandon = FALSE
+  RegisterLate = FALSE
+  MarkCallerOnly = FALSE
 INVARIANT Emit
 INVARIANT SingleFlight
 INVARIANT OncePerEpoch
